@@ -97,6 +97,7 @@ def d2(ctx, F):
     # flush_batch really sends a non-empty batch
     fbb = F.body(PUB + "flush_batch")
     ctx.touch(fbb)
+    fbb = F.inlined(fbb, keep=[PUB + "send_batch"] + [p_ for p_ in F.bodies if p_.startswith(MB)])
     sbc = fbb.calls_to(PUB + "send_batch")
     ie = fbb.calls_to(MB + "is_empty")
     ok = False
@@ -231,15 +232,20 @@ def d4(ctx, F):
         if site.kind == "unwrap" and body.path == PUB + "send_batch" and site.what.startswith("Option"):
             callers = F.callers_of(PUB.replace("::<E, Item>", "") + "send_batch", PUB + "send_batch")
             okall = bool(callers)
-            for c in callers:
-                b = c.body
-                ok = False
-                for i, bl in enumerate(b.blocks):
-                    v = flow.switch_on_variant(b, i)
-                    if v and v[1] == "core::option::Option" and b.dominates(i, c.bb):
-                        some_t, none_t = v[2].get("Some", v[3]), v[2].get("None", v[3])
-                        if c.bb in flow.reach_avoiding(b, [some_t], [i]) and c.bb not in flow.reach_avoiding(b, [none_t], [i]):
-                            ok = True
+            for c0 in callers:
+                # the caller with its predicate helpers / `is_some_and(..)` written out, send_batch itself kept as a call
+                b = F.inlined(c0.body, keep=[PUB + "send_batch"] + [p_ for p_ in F.bodies if p_.startswith(MB)])
+                cs = [x for x in b.calls() if x.is_(PUB.replace("::<E, Item>", "") + "send_batch", PUB + "send_batch")]
+                ok = bool(cs)
+                for c in cs:
+                    okc = False
+                    for i, bl in enumerate(b.blocks):
+                        v = flow.switch_on_variant(b, i)
+                        if v and v[1] == "core::option::Option" and b.dominates(i, c.bb):
+                            some_t, none_t = v[2].get("Some", v[3]), v[2].get("None", v[3])
+                            if c.bb in flow.reach_avoiding(b, [some_t], [i]) and c.bb not in flow.reach_avoiding(b, [none_t], [i]):
+                                okc = True
+                    ok &= okc
                 okall &= ok
             if okall:
                 return "D6: every caller (%d) reaches send_batch only after matching self.batch as Some" % len(callers)
@@ -258,6 +264,9 @@ def d5(ctx, F):
     c05.d5_guard_exactness(ctx, F)
     # "all payload sizes up to the frame limit": the frame codec's two sides agree on what the limit is applied to (C05.D3)
     c05.d3(ctx, F)
+    # frames are reassembled whatever the chunking of the transport (C05.D4): a decoder that panics on a particular cut kills the
+    # topic's router or the subscriber's task
+    c05.d4(ctx, F)
 
 
 def d6(ctx, F):
